@@ -382,9 +382,10 @@ pub type NrFn = Arc<dyn Fn(&Elem, &Elem) -> Vec<(&'static str, Elem)> + Send + S
 
 pub fn quad_ext<P: QuadExtConfig>(out: &mut Vec<Rel>, name: &'static str, tier: Tier, must_be_x: bool)
 where
-    P::BaseField: OracleRepr,
+    P::BaseField: OracleRepr + FftField,
     P::FrobCoeff: OracleRepr,
 {
+    ext_fft::<QuadExtField<P>>(out, name);
     let d = ExtData {
         name,
         k: 2,
@@ -422,9 +423,10 @@ where
 
 pub fn cubic_ext<P: CubicExtConfig>(out: &mut Vec<Rel>, name: &'static str, tier: Tier)
 where
-    P::BaseField: OracleRepr,
+    P::BaseField: OracleRepr + FftField,
     P::FrobCoeff: OracleRepr,
 {
+    ext_fft::<CubicExtField<P>>(out, name);
     let d = ExtData {
         name,
         k: 3,
@@ -454,6 +456,124 @@ where
         vec![("in_place", a.to_o()), ("by_value", b.to_o())]
     });
     ext_rels(out, d, frob, nr, tier);
+}
+
+/// `FftField` constants of an extension level, read through the public trait.  The statement asks that the 2-adic and
+/// the large-subgroup roots of unity "have exactly the stated orders"; for extension fields the stated orders are
+/// 2^TWO_ADICITY and 2^TWO_ADICITY * SMALL_SUBGROUP_BASE^SMALL_SUBGROUP_BASE_ADICITY of *that* impl.  Orders are decided
+/// by oracle exponentiation in the full tower (w^n = 1 and w^(n/l) != 1 for every prime l | n).  `get_root_of_unity(n)`
+/// is read for every n = 2^i * b^j it is documented for: the value must have order exactly n.
+/// (GENERATOR of an extension level is the embedded base-field generator - a square in every even-degree extension -
+/// so the non-residue clause is only asserted for prime fields, in `fp.generator`.)
+pub fn ext_fft<F: FftField + OracleRepr>(out: &mut Vec<Rel>, name: &'static str) {
+    let tw = <F as OracleRepr>::tower();
+    let s = F::TWO_ADICITY;
+    let two_root = F::TWO_ADIC_ROOT_OF_UNITY.to_o();
+    let small_base = F::SMALL_SUBGROUP_BASE;
+    let small_adic = F::SMALL_SUBGROUP_BASE_ADICITY;
+    let large = F::LARGE_SUBGROUP_ROOT_OF_UNITY.map(|x| x.to_o());
+    // exact order test: w^n = 1 and w^(n/l) != 1 for the primes l | n (n = 2^i * b^j)
+    fn has_order(tw: &Tower, w: &Elem, i: u32, b: u32, j: u32) -> Result<(), String> {
+        let one = tw.one();
+        let n = (BigUint::one() << i) * BigUint::from(b).pow(j);
+        if tw.pow(w, &n) != one {
+            return Err(format!("w^n != 1 for n = 2^{} * {}^{}", i, b, j));
+        }
+        let mut ls: Vec<u32> = Vec::new();
+        if i > 0 {
+            ls.push(2);
+        }
+        if j > 0 {
+            for l in small_primes(b + 1) {
+                if b % l == 0 && !ls.contains(&l) {
+                    ls.push(l);
+                }
+            }
+        }
+        for l in ls {
+            if tw.pow(w, &(&n / BigUint::from(l))) == one {
+                return Err(format!("w^(n/{}) = 1: the order is a proper divisor of n = 2^{} * {}^{}", l, i, b, j));
+            }
+        }
+        Ok(())
+    }
+    let get = Arc::new(|n: u64| F::get_root_of_unity(n).map(|x| x.to_o()));
+    out.push(identities(format!("ext.fft/{}", name), 4, move |t, o| {
+        let i = t.below(4);
+        o.evals(1);
+        match i {
+            0 => {
+                o.show(|| format!("{}: FftField::TWO_ADIC_ROOT_OF_UNITY = {} has order exactly 2^{}", name, show_elem(&tw, &two_root), s));
+                o.nt(s > 0);
+                check(s >= 1, "fft.TWO_ADICITY", || "TWO_ADICITY = 0 in a field of odd characteristic".into())?;
+                match has_order(&tw, &two_root, s, 1, 0) {
+                    Ok(()) => Ok(()),
+                    Err(e) => failure("fft.TWO_ADIC_ROOT_OF_UNITY.order", e),
+                }
+            },
+            1 => {
+                o.show(|| format!("{}: FftField small subgroup: base {:?} adicity {:?} large root {:?}", name, small_base, small_adic, large.as_ref().map(|w| show_elem(&tw, w))));
+                o.nt(large.is_some());
+                let all = small_base.is_some() && small_adic.is_some() && large.is_some();
+                let none = small_base.is_none() && small_adic.is_none() && large.is_none();
+                check(all || none, "fft.small-subgroup.all-or-none", || format!("base {:?} adicity {:?} root set: {}", small_base, small_adic, large.is_some()))?;
+                if let (Some(b), Some(k), Some(w)) = (small_base, small_adic, &large) {
+                    o.class("has-small-subgroup");
+                    check(b >= 2 && k >= 1, "fft.small-subgroup.trivial", || format!("base {} adicity {}", b, k))?;
+                    if let Err(e) = has_order(&tw, w, s, b, k) {
+                        return failure("fft.LARGE_SUBGROUP_ROOT_OF_UNITY.order", e);
+                    }
+                }
+                Ok(())
+            },
+            2 => {
+                // get_root_of_unity(2^i * b^j) for every documented n that fits in 64 bits
+                let (b, k) = (small_base.unwrap_or(1), small_adic.unwrap_or(0));
+                let mut count = 0u64;
+                for i2 in 0..=s.min(63) {
+                    for j in 0..=k {
+                        let n = match (b as u64).checked_pow(j).and_then(|q| q.checked_mul(1u64 << i2)) {
+                            Some(n) => n,
+                            None => continue,
+                        };
+                        if usize::try_from(n).is_err() {
+                            continue;
+                        }
+                        let w = match vh_core::engine::no_panic("get_root_of_unity", || get(n))? {
+                            Some(w) => w,
+                            None => return failure("fft.get_root_of_unity.none", format!("get_root_of_unity({} = 2^{} * {}^{}) = None", n, i2, b, j)),
+                        };
+                        if let Err(e) = has_order(&tw, &w, i2, b, j) {
+                            return failure("fft.get_root_of_unity.order", format!("get_root_of_unity({}): {}", n, e));
+                        }
+                        count += 1;
+                    }
+                }
+                o.show(|| format!("{}: get_root_of_unity(n) has order exactly n for the {} sizes n = 2^i * {}^j, i <= {}, j <= {}", name, count, b, s, k));
+                o.nt(true);
+                o.evals(count);
+                Ok(())
+            },
+            _ => {
+                // sizes outside the documented family: the answer must be None (or, if Some, still of order exactly n)
+                let (b, k) = (small_base.unwrap_or(1), small_adic.unwrap_or(0));
+                o.show(|| format!("{}: get_root_of_unity rejects 2^{}, 3*2^2 (b = {}), {}^{}", name, s + 1, b, b, k + 1));
+                o.nt(true);
+                if s < 62 {
+                    check(get(1u64 << (s + 1)).is_none(), "fft.get_root_of_unity.too-large", || format!("get_root_of_unity(2^{}) is Some although TWO_ADICITY = {}", s + 1, s))?;
+                }
+                if b != 3 {
+                    check(get(12).is_none(), "fft.get_root_of_unity.foreign-prime", || "get_root_of_unity(12) is Some although 3 is not the small-subgroup base".into())?;
+                }
+                if b > 1 {
+                    if let Some(n) = (b as u64).checked_pow(k + 1) {
+                        check(get(n).is_none(), "fft.get_root_of_unity.too-large", || format!("get_root_of_unity({}^{}) is Some", b, k + 1))?;
+                    }
+                }
+                Ok(())
+            },
+        }
+    }));
 }
 
 fn ext_structure(d: &ExtData, i: u64, o: &mut Obs) -> R {
